@@ -60,7 +60,8 @@ def _worker_init(factory_mod, factory_name):
 
 
 def _run_chunk(args):
-    base_seed, start, count, tier, want_twice = args
+    base_seed, start, count, tier, want_twice = args[:5]
+    dump_all = len(args) > 5 and args[5]
     chk = _CHECK
     out = {"n": 0, "violations": [], "digests": [], "nontrivial": 0, "counters": {}, "decisions": 0,
            "switches": 0, "sim_s": 0.0, "states": [], "samples": [], "errors": [], "twice_ok": 0,
@@ -83,6 +84,8 @@ def _run_chunk(args):
             out["errors"].append((i, seed, traceback.format_exc()))
             continue
         out["n"] += 1
+        if dump_all:
+            out.setdefault("all_digests", []).append((i, r["digest"]))
         out["decisions"] += r.get("decisions", 0)
         out["switches"] += r.get("switches", 0)
         out["sim_s"] += r.get("sim_s", 0.0)
@@ -242,8 +245,9 @@ def do_replay(chk, path):
 
 def main(factory_mod, factory_name, argv=None):
     # hash randomisation off, fresh interpreter
-    if os.environ.get("PYTHONHASHSEED") != "0":
-        env = dict(os.environ, PYTHONHASHSEED="0")
+    want_hs = os.environ.get("VERIF_HASHSEED", "0")
+    if os.environ.get("PYTHONHASHSEED") != want_hs:
+        env = dict(os.environ, PYTHONHASHSEED=want_hs)
         os.execve(sys.executable, [sys.executable] + sys.argv, env)
     ap = argparse.ArgumentParser()
     ap.add_argument("--tier", default=os.environ.get("VERIF_TIER", "quick"), choices=["quick", "thorough"])
@@ -255,6 +259,7 @@ def main(factory_mod, factory_name, argv=None):
     ap.add_argument("--one", type=int, default=None, help="run a single run index in-process and print its result")
     ap.add_argument("--digests", action="store_true", help="print 'index digest' lines (determinism self-test)")
     ap.add_argument("--no-evidence", action="store_true")
+    ap.add_argument("--dump-digests", default=None, help="write 'index digest' for every run of the batch to this file")
     a = ap.parse_args(argv)
 
     mod = __import__(factory_mod, fromlist=[factory_name])
@@ -302,7 +307,7 @@ def main(factory_mod, factory_name, argv=None):
             nonlocal nxt, submitted
             while len(pending) < jobs * 2 and nxt < n_runs and budget.left() > 0:
                 c = min(chunk, n_runs - nxt)
-                pending.add(ex.submit(_run_chunk, (seed, nxt, c, a.tier, twice)))
+                pending.add(ex.submit(_run_chunk, (seed, nxt, c, a.tier, twice, bool(a.dump_digests))))
                 nxt += c
                 submitted += c
         submit_more()
@@ -324,6 +329,7 @@ def main(factory_mod, factory_name, argv=None):
                     agg["errors"].append((-1, -1, "worker died: " + repr(e)))
                     continue
                 agg["n"] += o["n"]
+                agg.setdefault("all_digests", []).extend(o.get("all_digests", []))
                 agg["violations"].extend(o["violations"])
                 agg["digests"].update(o["digests"])
                 agg["nontrivial"] += o["nontrivial"]
@@ -361,6 +367,11 @@ def main(factory_mod, factory_name, argv=None):
     if agg["twice_bad"]:
         print(f"HARNESS-ERROR property={chk.prop}: non-deterministic replay of runs {agg['twice_bad'][:3]}")
         sys.exit(2)
+
+    if a.dump_digests:
+        with open(a.dump_digests, "w") as f:
+            for i, d in sorted(agg.get("all_digests", [])):
+                f.write(f"{i} {d}\n")
 
     # ---- triage violations
     known = load_known(chk.prop)
